@@ -160,6 +160,32 @@ Theorem snapshot_cut_equiv_sessions :
 Proof. exact @snapshot_cut_equiv_sessions_proved. Qed.
 Print Assumptions snapshot_cut_equiv_sessions.
 
+(* replicas that snapshot + restart at different points of the same log are
+   indistinguishable from one that never restarted (and so from each other):
+   same result for every entry, same session table, same user state *)
+Theorem replicas_agree :
+  forall (S result : Type) (sm_update : S -> bytes -> S * result)
+         (sm_save : S -> bytes) (sm_recover : bytes -> option S),
+  (forall s, sm_recover (sm_save s) = Some s) ->
+  forall cap (s0 : S) es1 es2 es1' es2',
+  0 < cap -> es1 ++ es2 = es1' ++ es2' ->
+  restart_run sm_update sm_save sm_recover cap s0 es1 es2
+    = Some (run sm_update (init_state cap s0) (es1 ++ es2)) /\
+  restart_run sm_update sm_save sm_recover cap s0 es1 es2
+    = restart_run sm_update sm_save sm_recover cap s0 es1' es2'.
+Proof. exact @replicas_agree_proved. Qed.
+Print Assumptions replicas_agree.
+
+(* tie G: the facts regenerated from the source that model and proofs rely on *)
+Theorem source_tie :
+  src_has_responded_le = true /\ src_clear_to_guard_le = true /\ src_clear_to_shortcut_eq = true /\
+  src_clear_to_loop_le = true /\ src_evict_when_gt = true /\
+  not_session_managed_client_id = 0 /\ noop_series_id = 0 /\ series_id_first_proposal = 1 /\
+  series_id_for_register = 2 ^ 64 - 2 /\ series_id_for_unregister = 2 ^ 64 - 1 /\
+  0 < lru_max_session_count.
+Proof. exact source_tie_proved. Qed.
+Print Assumptions source_tie.
+
 (* client side (client.Session): after PrepareForPropose, any interleaving of
    proposing/retrying and ProposalCompleted never panics and emits entries with
    the client's id, RespondedTo = SeriesID - 1, never a reserved series id,
